@@ -183,11 +183,16 @@ func init() {
 	})
 	register(&Property{
 		ID: "C15",
-		Explanation: "Decides the classification clause only: in runCheck the arms for ErrDuplicatePacks, ErrMixedPack and orphaned packs (exactly the states an interrupted backup, prune or repair may leave: duplicate index entries, old mixed packs, unindexed packs) neither set the errors-found flag nor increment summary.NumErrors on any path, both hint types have their own type-switch arm (they do not fall into the default error arm), and the success return is guarded by that flag. Not decided: that restic never produces any other inconsistency (that part is the ordering rules of C09/C11/C26).",
+		Explanation: "Decides the classification clause only: in runCheck the arms for ErrDuplicatePacks, ErrMixedPack and orphaned packs (exactly the states an interrupted backup, prune or repair may leave: duplicate index entries, old mixed packs, unindexed packs) neither set the errors-found flag nor increment summary.NumErrors on any path, both hint types have their own type-switch arm (they do not fall into the default error arm), and the success return is guarded by that flag; plus the write/delete orderings whose violation makes check fail after an interruption: (execute-order, rewrite-order; C09) prune deletes a pack only after no index file names it and removes old index files only after the new ones were saved; (pack-before-index, flush-order, snapshot-after-upload; C11) an index entry is written only for an uploaded pack and a snapshot only after its data was flushed. Not decided: that restic never produces any other inconsistency (e.g. through the remaining commands' own sequences).",
 		Assumptions: commonAssumptions,
-		Technique:   "static analysis: path-sensitive flag flow over the type-switch arms of runCheck (go/ssa)",
+		Technique:   "static analysis: path-sensitive flag flow over the type-switch arms of runCheck + CFG ordering cuts of the write/delete sequences (go/ssa)",
 		Run: func(c *eng.Ctx) {
 			ruleCheckExit(c, true)
+			ruleExecuteOrder(c)
+			ruleRewriteOrder(c)
+			rulePackBeforeIndex(c)
+			ruleFlushOrder(c)
+			ruleSnapshotAfterUpload(c)
 		},
 		Controls: []Control{
 			{Name: "mixed-pack-becomes-error", File: "cmd/restic/cmd_check.go",
